@@ -41,6 +41,47 @@ def placedLL (inLoop inDef : Bool) : List (List Structure) → Bool
   | l :: r => placedL inLoop inDef l && placedLL inLoop inDef r
 end
 
+/-! C12: where `X` / `x` stand with respect to the bookkeeping depths (hypothesis of `transpile_balanced`): in the body of
+    a loop (`loop`: one context value deeper than the loop statement), directly in a lambda body (`lam`: all four lists
+    one deeper than the `def`), or anywhere else (`plain`: a while condition, a list item, a function body, top level) -/
+
+inductive BCtx | plain | loop | lam
+  deriving DecidableEq, Repr
+
+def bBrk (c : BCtx) : Parent → Bool
+  | .forS | .whileS => c == .loop
+  | .lam => c == .lam
+  | _ => true
+
+def bRec (c : BCtx) : Parent → Bool
+  | .forS | .whileS => c == .loop
+  | _ => true
+
+mutual
+def bplS (c : BCtx) : Structure → Bool
+  | .generic _ => true
+  | .brk p => bBrk c p
+  | .recurse p => bRec c p
+  | .ifS bs => bplLL c bs
+  | .forS _ body => bplL .loop body
+  | .whileS Option.none body => bplL .loop body
+  | .whileS (some cnd) body => bplL .plain cnd && bplL .loop body
+  | .fnCall _ => true
+  | .fnDef _ _ body => bplL .plain body
+  | .lam _ body => bplL .lam body
+  | .lamOp _ body => bplL .lam body
+  | .listS items => bplLL .plain items
+  | .mon _ a => bplS .lam a
+  | .dy _ a b => bplS .lam a && bplS .lam b
+  | .tri _ a b c => bplS .lam a && bplS .lam b && bplS .lam c
+def bplL (c : BCtx) : List Structure → Bool
+  | [] => true
+  | s :: r => bplS c s && bplL c r
+def bplLL (c : BCtx) : List (List Structure) → Bool
+  | [] => true
+  | l :: r => bplL c l && bplLL c r
+end
+
 /-! C18: the lexer's guarantee on variable tokens, as a predicate on trees (hypothesis of `names_from_vocabulary`) -/
 
 /-- the lexer's guarantee on variable tokens (`lex_variable_letters`), as a predicate on trees -/
